@@ -4,13 +4,13 @@ Require Import CCP.Lib.Res CCP.Lib.Pow2 CCP.Model.IPRef CCP.gen.GenIP CCP.gen.Ge
 Open Scope Z_scope.
 
 Lemma gen_v4_numhosts_ok self : wf 32 self -> gen_v4_numhosts self = Ok (numhosts_ref 32 self).
-Proof. intros Hs. unfold gen_v4_numhosts, numhosts_ref. abstract_obj 32 self Hs. finish. Qed.
+Proof. intros Hs. repeat autounfold with genip. unfold numhosts_ref. abstract_obj 32 self Hs. finish. Qed.
 Lemma gen_v6_numhosts_ok self : wf 128 self -> gen_v6_numhosts self = Ok (numhosts_ref 128 self).
-Proof. intros Hs. unfold gen_v6_numhosts, numhosts_ref. abstract_obj 128 self Hs. finish. Qed.
+Proof. intros Hs. repeat autounfold with genip. unfold numhosts_ref. abstract_obj 128 self Hs. finish. Qed.
 Lemma gen_v4_as_decimal_broadcast_ok self : wf 32 self -> gen_v4_as_decimal_broadcast self = Ok (lastaddr 32 self).
-Proof. intros Hs. unfold gen_v4_as_decimal_broadcast. abstract_obj 32 self Hs. finish. Qed.
+Proof. intros Hs. repeat autounfold with genip. abstract_obj 32 self Hs. finish. Qed.
 Lemma gen_v6_as_decimal_network_maxint_ok self : wf 128 self -> gen_v6_as_decimal_network_maxint self = Ok (lastaddr 128 self).
-Proof. intros Hs. unfold gen_v6_as_decimal_network_maxint. abstract_obj 128 self Hs. finish. Qed.
+Proof. intros Hs. repeat autounfold with genip. abstract_obj 128 self Hs. finish. Qed.
 Lemma c_maxint4 : c_IPV4_MAXINT = maxint 32. Proof. reflexivity. Qed.
 Lemma c_maxint6 : c_IPV6_MAXINT = maxint 128. Proof. reflexivity. Qed.
 Lemma c_maxplen4 : c_IPV4_MAX_PREFIXLEN = 32. Proof. reflexivity. Qed.
